@@ -785,6 +785,7 @@ theorem inv_step_both {s : St} (o : Op) (h : Inv s) : Inv (step s o).1 := by
     · exact h5
   | chanClose c => exact (inv_ofM2 h (fun _ e => ⟨Inv04.of_frame (frame_setChanClosed e) h.1, Inv05.of_frame (oframe_setChanClosed e) h5⟩)).2
   | chanOpen c => exact (inv_ofM2 h (fun _ e => ⟨Inv04.of_frame (frame_setChanClosed e) h.1, Inv05.of_frame (oframe_setChanClosed e) h5⟩)).2
+  | timeoutOnClose c seq => exact (inv_ofM2 h (fun _ e => by unfold timeoutOnClose at e; split at e <;> cases e; exact ⟨h.1, h5⟩)).2
   | finalize a rid ph t src seq => exact (inv_ofM2 h (fun _ e => ⟨inv_msgFinalize h.1 e, msgFinalize_inv05 h5 hk e⟩)).2
   | finalizeByKey a b => exact (inv_ofM2 h (fun _ e => ⟨inv_msgFinalizeByKey h.1 e, msgFinalizeByKey_inv05 h5 hk e⟩)).2
   | fulfill a id fee => exact (inv_ofM2 h (fun _ e => ⟨inv_msgFulfill h.1 e, inv05_msgFulfill h5 e⟩)).2
